@@ -9,6 +9,8 @@ import pipeline
 import sr
 
 ASSUME = [
+    "some CONNECT vectors are made while another connection to a different port of the same host, or a look-up of that host, is "
+    "started before the proxy has answered ours: our request is unaffected",
     "TLC decides every recorded vector with the SocksReq grammar and proves the grammar's encoder/parser agree over a boundary grid; "
     "the breadth of inputs (ports, literals, hostnames) is enumerated / drawn by the Python driver",
     "packed address bytes of a literal are computed with Python's ipaddress module (independent of socks.py's inet_pton/inet_aton calls)",
@@ -94,6 +96,12 @@ def vectors(tier, seed):
     sels = ["split", "m2", "m2split", "none", "badver", "m1", "split", "sync", "sync", "coalesced", "coalesced"]
     vs = [v + (("ok",) if i % 4 else (sels[(i // 4) % len(sels)],)) for i, v in enumerate(vs)]
     vs += tlsvs
+    # overlapping use of one host: while our request waits for the proxy's method selection, a connection to another port
+    # of the same host - or a look-up of it - is started
+    for h, k in (("www.example.org", "host"), ("198.51.100.20", "v4"), ("2001:db8::7", "v6"), ("onion.example.com", "host")):
+        for p in (80, 443, 22, 65535, 1):
+            vs.append(("CONNECT", k, h, p, "ok", False, "connect"))
+            vs.append(("CONNECT", k, h, p, "split", False, "resolve" if k == "host" else "ptr"))
     if tier == "thorough":
         for p in range(65536):
             vs.append(("CONNECT", "host", "p.example", p, "ok"))
@@ -156,7 +164,7 @@ def run(pid, tier, seed):
 def replay(pid, path):
     p = json.load(open(path))
     v = p["vector"]
-    rec = sr.vector(v["req"], v["kind"], v["host"], v["port"], v.get("sel", "ok"), v.get("tls", False))
+    rec = sr.vector(v["req"], v["kind"], v["host"], v["port"], v.get("sel", "ok"), v.get("tls", False), v.get("beside", ""))
     t = dict(rec, steps=[1])
     t.pop("host")
     res, r = tlc.validate_traces("SocksReqTrace", "SocksReqTrace.cfg", [t])
